@@ -60,3 +60,16 @@ m = {
 }
 json.dump(m, open('/verif/MANIFEST.json', 'w'), indent=1)
 print("claimed:", sorted(CLAIMS.keys()))
+
+# the 'uncovered' text of each evidence file is the partial part of the claim (kept in one place)
+unc = {}
+for k, v in CLAIMS.items():
+    t = v[1]
+    i, j = t.find('Partial:'), t.find('Not covered:')
+    if i >= 0:
+        unc[k] = t[i + len('Partial:'):].strip()
+    elif j >= 0:
+        unc[k] = t[j + len('Not covered:'):].strip()
+    else:
+        unc[k] = "nothing beyond the trusted base and the assumptions listed in this file; known findings are listed separately"
+json.dump(unc, open('/verif/govc/uncovered.json', 'w'), indent=1)
